@@ -1373,7 +1373,10 @@ class ServiceClass:
                 # For the elements in the status dataset, try and set the
                 #   corresponding response primitive attribute
                 for elem in status:
-                    if hasattr(rsp, elem.keyword):
+                    # (the response always answers the request it belongs to)
+                    if elem.keyword != "MessageIDBeingRespondedTo" and hasattr(
+                        rsp, elem.keyword
+                    ):
                         setattr(rsp, elem.keyword, elem.value)
                     else:
                         LOGGER.warning(
@@ -1482,7 +1485,10 @@ class VerificationServiceClass(ServiceClass):
                         "a (0000,0900) Status element"
                     )
                 for elem in status:
-                    if hasattr(rsp, elem.keyword):
+                    # (the response always answers the request it belongs to)
+                    if elem.keyword != "MessageIDBeingRespondedTo" and hasattr(
+                        rsp, elem.keyword
+                    ):
                         setattr(rsp, elem.keyword, elem.value)
                     else:
                         LOGGER.warning(
